@@ -189,6 +189,8 @@ pub struct Prog {
     pub obj: DE,
     pub cons: Vec<DCon>,
     pub consts: Vec<(String, V)>,
+    /// constants written as an expression instead of a literal (e.g. `range(-2, 3, false)`); the value is in `consts`
+    pub const_text: Vec<(String, String)>,
     pub graphs: Vec<(String, GraphData)>,
     pub decls: Vec<DDecl>,
 }
@@ -275,24 +277,38 @@ impl Prog {
             Iter::SetOp(op, a, b) => {
                 let (Some(V::Arr(xa)), Some(V::Arr(xb))) = (env.get(a), env.get(b)) else { return und("set function on non-arrays") };
                 let mut out: Vec<V> = vec![];
+                // numbers are set elements by value, whatever kind they are stored as
+                trait NumEq {
+                    fn contains(&self, v: &V) -> bool;
+                }
+                impl NumEq for Vec<V> {
+                    fn contains(&self, v: &V) -> bool {
+                        self.iter().any(|w| match (w.num(), v.num()) {
+                            (Some(a), Some(b)) => a == b,
+                            _ => w == v,
+                        })
+                    }
+                }
+                let xb = xb.clone();
+                let xa = xa.clone();
                 match *op {
                     "union" => {
                         for v in xa.iter().chain(xb.iter()) {
-                            if !out.contains(v) {
+                            if !NumEq::contains(&out, v) {
                                 out.push(v.clone());
                             }
                         }
                     }
                     "intersection" => {
-                        for v in xa {
-                            if xb.contains(v) && !out.contains(v) {
+                        for v in &xa {
+                            if NumEq::contains(&xb, v) && !NumEq::contains(&out, v) {
                                 out.push(v.clone());
                             }
                         }
                     }
                     _ => {
-                        for v in xa {
-                            if !xb.contains(v) && !out.contains(v) {
+                        for v in &xa {
+                            if !NumEq::contains(&xb, v) && !NumEq::contains(&out, v) {
                                 out.push(v.clone());
                             }
                         }
@@ -525,7 +541,8 @@ impl Prog {
         }
         let mut s = String::from("where\n");
         for (n, v) in &self.consts {
-            s.push_str(&format!("    let {n} = {}\n", v.literal()));
+            let text = self.const_text.iter().find(|(k, _)| k == n).map(|(_, t)| t.clone()).unwrap_or_else(|| v.literal());
+            s.push_str(&format!("    let {n} = {text}\n"));
         }
         for (n, g) in &self.graphs {
             s.push_str(&format!("    let {n} = {}\n", g.literal()));
@@ -644,7 +661,7 @@ pub fn gen_prog(rng: &mut ChaCha8Rng) -> (Prog, &'static str) {
     let cmp = ["<=", ">=", "="][rng.gen_range(0..3)];
     let sense = ["min", "max"][rng.gen_range(0..2)];
     let agg_num = [Agg::Sum, Agg::Sum, Agg::Avg, Agg::Min, Agg::Max][rng.gen_range(0..5)];
-    let base = Prog { sense, obj: DE::Num(0.0), cons: vec![], consts: vec![], graphs: vec![], decls: vec![] };
+    let base = Prog { sense, obj: DE::Num(0.0), cons: vec![], consts: vec![], const_text: vec![], graphs: vec![], decls: vec![] };
     match shape {
         0 => {
             // aggregation over a range with an index expression
@@ -712,8 +729,35 @@ pub fn gen_prog(rng: &mut ChaCha8Rng) -> (Prog, &'static str) {
             // set functions
             let mut p = base;
             let op = ["union", "intersection", "difference"][rng.gen_range(0..3)];
-            p.consts.push(("A".into(), small_array(rng, 0..4, true)));
-            p.consts.push(("B".into(), V::Arr((0..rng.gen_range(0..4)).map(|_| V::Int(rng.gen_range(0..7))).collect::<Vec<_>>().into_iter().fold(vec![], |mut acc, v| { if !acc.contains(&v) { acc.push(v); } acc }))));
+            // operands: array literals (non-negative, or with negative entries) and ranges written with
+            // range(): equal numbers then meet as different number kinds
+            for name in ["A", "B"] {
+                match rng.gen_range(0..4) {
+                    0 => {
+                        let lo = rng.gen_range(-2..=1);
+                        let hi = lo + rng.gen_range(0..5);
+                        p.consts.push((name.into(), V::Arr((lo..hi).map(V::Int).collect())));
+                        p.const_text.push((name.into(), format!("range({lo}, {hi}, false)")));
+                    }
+                    1 => {
+                        let mut xs: Vec<V> = vec![];
+                        for _ in 0..rng.gen_range(0..4) {
+                            let v = V::Int(rng.gen_range(0..5)); // array literals cannot hold negative numbers
+                            if !xs.contains(&v) {
+                                xs.push(v);
+                            }
+                        }
+                        p.consts.push((name.into(), V::Arr(xs)));
+                    }
+                    _ => {
+                        if name == "A" {
+                            p.consts.push((name.into(), small_array(rng, 0..4, true)));
+                        } else {
+                            p.consts.push((name.into(), V::Arr((0..rng.gen_range(0..4)).map(|_| V::Int(rng.gen_range(0..7))).collect::<Vec<_>>().into_iter().fold(vec![], |mut acc, v| { if !acc.contains(&v) { acc.push(v); } acc }))));
+                        }
+                    }
+                }
+            }
             let binds = vec![Bind { pat: Pat::One("e".into()), iter: Iter::SetOp(op, "A".into(), "B".into()) }];
             p.obj = DE::Scoped(Agg::Sum, binds.clone(), bx(DE::Mul(bx(DE::Const(var("e"))), bx(DE::Var("w".into(), vec![])))));
             p.cons.push(DCon { name: Some(("m".into(), vec![])), lhs: DE::Var("w".into(), vec![]), rel: ">=", rhs: DE::Const(IExp::Add(bx(var("e")), bx(lit(0)))), binds });
